@@ -3,6 +3,7 @@ package sim
 import (
 	"fmt"
 	"runtime"
+	"strconv"
 	"strings"
 	"sync"
 	"time"
@@ -13,14 +14,16 @@ import (
 type Point int
 
 const (
-	PtLocked     Point = 1
-	PtBeforeLoad Point = 2
-	PtAfterLoad  Point = 3
-	PtCommit     Point = 4
-	PtStored     Point = 5
-	PtUnlocked   Point = 6
-	PtAbort      Point = 7
-	PtRouteOpts  Point = 8
+	PtLocked       Point = 1
+	PtBeforeLoad   Point = 2
+	PtAfterLoad    Point = 3
+	PtCommit       Point = 4
+	PtStored       Point = 5
+	PtUnlocked     Point = 6
+	PtAbort        Point = 7
+	PtRouteOpts    Point = 8
+	PtBeforeUnlock Point = 9
+	PtBeforeStore  Point = 10
 
 	PtAcquire Point = 32 // before the writer lock is requested
 	PtUser    Point = 33 // between two API calls of a task's program
@@ -33,7 +36,7 @@ const (
 
 var pointNames = map[Point]string{
 	PtLocked: "locked", PtBeforeLoad: "before_load", PtAfterLoad: "after_load", PtCommit: "commit", PtStored: "stored",
-	PtUnlocked: "unlocked", PtAbort: "abort", PtRouteOpts: "route_opts", PtAcquire: "acquire", PtUser: "user",
+	PtUnlocked: "unlocked", PtAbort: "abort", PtRouteOpts: "route_opts", PtBeforeUnlock: "before_unlock", PtBeforeStore: "before_store", PtAcquire: "acquire", PtUser: "user",
 	PtHandler: "handler", PtIter: "iter", PtTxnFn: "txn_fn", PtHeld: "held",
 }
 
@@ -41,7 +44,10 @@ func (p Point) String() string {
 	if n, ok := pointNames[p]; ok {
 		return n
 	}
-	return fmt.Sprintf("pt%d", int(p))
+	if p == 0 {
+		return "start"
+	}
+	return "pt" + strconv.Itoa(int(p)) // no fmt here: the scheduler goroutine runs with race-detector synchronisation ignored and must stay out of fmt's sync.Pool
 }
 
 type taskState int
